@@ -72,10 +72,10 @@ def bearHand (ra1 dec1 ra2 dec2 : α) : α :=
     (R.cos (R.radians dec1) * R.sin (R.radians dec2)
       - R.sin (R.radians dec1) * R.cos (R.radians dec2) * R.cos (R.radians (ra2 - ra1))))
 
-/-- `dec_out` of `angle_tools.translate` -/
+/-- `dec_out` of `angle_tools.translate` (with the clamp of the sine to [-1, 1] of the repaired code) -/
 def translateDecHand (_ra dec r theta : α) : α :=
-  R.degrees (R.asin (R.sin (R.radians dec) * R.cos (R.radians r)
-    + R.cos (R.radians dec) * R.sin (R.radians r) * R.cos (R.radians theta)))
+  R.degrees (R.asin (R.min (R.ofNat 1) (R.max (-(R.ofNat 1)) (R.sin (R.radians dec) * R.cos (R.radians r)
+    + R.cos (R.radians dec) * R.sin (R.radians r) * R.cos (R.radians theta)))))
 
 /-- `ra_out` of `angle_tools.translate` -/
 def translateRaHand (ra dec r theta : α) : α :=
@@ -118,62 +118,93 @@ def fldCs (n : Nat) : Nat := n % 6000
 /-- Python's `int % 8640000` (result in `[0, 8640000)`), the wrap of `dec2hms` -/
 def hmsWrap (k : Int) : Nat := (k % 8640000).toNat
 
-/-- `'{:02d}'.format(k)` -/
-def pad2 (k : Nat) : String := if k < 10 then "0" ++ toString k else toString k
+/-! Strings are built and taken apart as `List Char`, with small structural recursions, so that
+    `parse (format n) = n` can be proved at the character level (Aegean/Proofs/C17String.lean). -/
+
+/-- the decimal digit `k < 10` as a character -/
+def digitChar (k : Nat) : Char := Char.ofNat (48 + k)
+
+/-- `'{:02d}'.format(k)`: two digits, zero padded; all the digits when `k ≥ 100` -/
+def pad2L (k : Nat) : List Char :=
+  if k < 100 then [digitChar (k / 10), digitChar (k % 10)] else (toString k).toList
 
 /-- `'{:05.2f}'.format(cs / 100.0)` for a natural number of hundredths -/
-def fmtSec (cs : Nat) : String := pad2 (cs / 100) ++ "." ++ pad2 (cs % 100)
+def fmtSecL (cs : Nat) : List Char := pad2L (cs / 100) ++ '.' :: pad2L (cs % 100)
 
-/-- the string `dec2dms` returns, from the sign and the three printed fields -/
-def dmsString (neg : Bool) (d m cs : Nat) : String :=
-  (if neg then "-" else "+") ++ pad2 d ++ ":" ++ pad2 m ++ ":" ++ fmtSec cs
+/-- the characters `dec2dms` returns, from the sign and the three printed fields -/
+def dmsChars (neg : Bool) (d m cs : Nat) : List Char :=
+  (if neg then '-' else '+') :: (pad2L d ++ ':' :: (pad2L m ++ ':' :: fmtSecL cs))
 
-/-- the string `dec2hms` returns -/
-def hmsString (h m cs : Nat) : String := pad2 h ++ ":" ++ pad2 m ++ ":" ++ fmtSec cs
+/-- the characters `dec2hms` returns -/
+def hmsChars (h m cs : Nat) : List Char := pad2L h ++ ':' :: (pad2L m ++ ':' :: fmtSecL cs)
+
+def dmsString (neg : Bool) (d m cs : Nat) : String := String.ofList (dmsChars neg d m cs)
+def hmsString (h m cs : Nat) : String := String.ofList (hmsChars h m cs)
 
 /-! ### Sexagesimal parsing (`dec2dec`, `ra2dec`) -/
+
+/-- separators of `dec.replace(':', ' ').split()` -/
+def isSep (c : Char) : Bool := c == ':' || c.isWhitespace
+
+/-- tokenizer: `cur` is the current token, reversed; empty tokens are dropped (as `str.split()` does) -/
+def tokAux : List Char → List Char → List (List Char)
+  | [], cur => if cur.isEmpty then [] else [cur.reverse]
+  | c :: r, cur =>
+    if isSep c then (if cur.isEmpty then tokAux r [] else cur.reverse :: tokAux r [])
+    else tokAux r (c :: cur)
+
+/-- `dec.replace(':', ' ').split()` -/
+def tokensL (l : List Char) : List (List Char) := tokAux l []
+
+def digitVal (c : Char) : Nat := c.toNat - 48
+def digitsVal (l : List Char) : Nat := l.foldl (fun a c => a * 10 + digitVal c) 0
+
+def signSplit : List Char → Bool × List Char
+  | '-' :: r => (true, r)
+  | '+' :: r => (false, r)
+  | r => (false, r)
+
+/-- `digits[.digits]` as (sign passed in, mantissa, number of decimals) -/
+def parseBody (neg : Bool) (body : List Char) : Option (Bool × Nat × Nat) :=
+  let ip := body.takeWhile Char.isDigit
+  let rest := body.dropWhile Char.isDigit
+  match rest with
+  | [] => if ip.isEmpty then none else some (neg, digitsVal ip, 0)
+  | '.' :: fp =>
+    if fp.all Char.isDigit && !(ip.isEmpty && fp.isEmpty) then some (neg, digitsVal (ip ++ fp), fp.length) else none
+  | _ => none
 
 /-- one numeric token `[+-]?digits[.digits]` as (negative?, mantissa, number of decimals).
     Anything else is rejected (Python's `float()` raises ValueError on what we call malformed;
     exponents, `inf`, `nan`, `_` are outside this model and never generated). -/
-def parseNum (s : String) : Option (Bool × Nat × Nat) :=
-  let cs := s.toList
-  let (neg, body) := match cs with
-    | '-' :: r => (true, r)
-    | '+' :: r => (false, r)
-    | r => (false, r)
-  let ip := body.takeWhile Char.isDigit
-  let rest := body.dropWhile Char.isDigit
-  let digits (l : List Char) : Nat := l.foldl (fun a c => a * 10 + (c.toNat - '0'.toNat)) 0
-  match rest with
-  | [] => if ip.isEmpty then none else some (neg, digits ip, 0)
-  | '.' :: fp =>
-    if fp.all Char.isDigit && !(ip.isEmpty && fp.isEmpty) then some (neg, digits (ip ++ fp), fp.length) else none
-  | _ => none
+def parseNumL (cs : List Char) : Option (Bool × Nat × Nat) :=
+  parseBody (signSplit cs).1 (signSplit cs).2
 
+/-- `float(token)`: mantissa · 10^(−decimals), negated for a leading '-' -/
 def numVal {α : Type} [R α] (t : Bool × Nat × Nat) : α :=
   let v : α := R.ofSci t.2.1 true t.2.2
   if t.1 then -v else v
-
-/-- `dec.replace(':', ' ').split()` -/
-def tokens (s : String) : List String :=
-  ((s.toList.map (fun c => if c = ':' then ' ' else c)).splitBy (fun a b => !a.isWhitespace && !b.isWhitespace)).filterMap
-    (fun g => if g.all Char.isWhitespace then none else some (String.ofList g))
 
 inductive ParseErr | index | value
   deriving DecidableEq, Repr
 
 /-- `dec2dec` with the two arithmetic branches as parameters (they are regenerated from source).
-    Fewer than two fields is Python's IndexError, a non-numeric field its ValueError. -/
-def dec2dec {α : Type} [R α] (pos neg : α → α → α → α) (s : String) : Except ParseErr α :=
-  match tokens s with
+    Fewer than two fields is Python's IndexError (after the first field was converted), a
+    non-numeric field its ValueError. -/
+def dec2decL {α : Type} [R α] (pos neg : α → α → α → α) (l : List Char) : Except ParseErr α :=
+  match tokensL l with
   | t0 :: t1 :: rest =>
-    let t2 := match rest with | [] => "0.0" | t :: _ => t
-    match parseNum t0, parseNum t1, parseNum t2 with
+    let t2 := match rest with | [] => ['0', '.', '0'] | t :: _ => t
+    match parseNumL t0, parseNumL t1, parseNumL t2 with
     | some a, some b, some c =>
       if a.1 then .ok (neg (numVal a) (numVal b) (numVal c)) else .ok (pos (numVal a) (numVal b) (numVal c))
     | _, _, _ => .error .value
-  | _ => .error .index
+  -- one field: `float(d[0])` is evaluated before `d[1]` is indexed
+  | [t0] => if (parseNumL t0).isNone then .error .value else .error .index
+  | [] => .error .index
+
+def dec2dec {α : Type} [R α] (pos neg : α → α → α → α) (s : String) : Except ParseErr α :=
+  dec2decL pos neg s.toList
 
 /-! ### The pinned (defective) Float formatters, kept for the negation witness
 
